@@ -1,3 +1,4 @@
+pub mod baseline_hist;
 pub mod c02;
 pub mod c03;
 pub mod c04;
@@ -39,6 +40,9 @@ pub fn run(prop: &str, tier: Tier, seed: u64, out: &str) -> bool {
         "C03" => c03::run(tier, seed, out),
         "C04" => c04::run(tier, seed, out),
         "C05" => c05::run(tier, seed, out),
+        "C09" => baseline_hist::run(baseline_hist::Which::C09, tier, seed, out),
+        "C10" => baseline_hist::run(baseline_hist::Which::C10, tier, seed, out),
+        "C11" => baseline_hist::run(baseline_hist::Which::C11, tier, seed, out),
         "C15" => c15::run(tier, seed, out),
         "C16" => c16::run(tier, seed, out),
         _ => return false,
